@@ -7,6 +7,16 @@ DATA_OUT = {WFILE, WCSF, WDCD}
 OPS = {"read": READ, "write": WREG, "write_file": WFILE, "write_dcd": WDCD, "write_csf": WCSF, "read_status": ERRSTAT, "jump": JUMP, "skip_dcd": SKIPDCD}
 
 
+def W(v):
+    """32-bit word -> [hi16, lo16] (TLC integers are 32-bit)."""
+    v &= 0xFFFFFFFF
+    return [v >> 16, v & 0xFFFF]
+
+
+WORDS = [0, 1, 0xFF, 0x100, 0xFFFF, 0x10000, 0x7FFFFFFF, 0x80000000, 0x11223344, 0xFFFFFFFF, 0x20000000, 0x00907000]
+NOPKT = {"addr": [0, 0], "fmt": 0, "cnt": [0, 0], "val": [0, 0], "rsv": 0}
+
+
 class SdpTwin:
     def __init__(self, transport, bursts, fault, status_bad):
         from spsdk.utils.exceptions import SPSDKTimeoutError
@@ -111,8 +121,9 @@ class SdpTwin:
                 self.on_data(chunk)
 
     def on_cmd(self, pkt):
-        tag, addr, fmt, count, value, _ = struct.unpack(">HIB2IB", pkt)
-        self.trace.append({"ev": "h2d", "kind": "cmd", "tag": tag, "count": count, "n": 0})
+        tag, addr, fmt, count, value, rsv = struct.unpack(">HIB2IB", pkt)
+        self.trace.append({"ev": "h2d", "kind": "cmd", "tag": tag, "count": min(count, 2**31 - 1), "n": 0,
+                           "pkt": {"addr": W(addr), "fmt": fmt, "cnt": W(count), "val": W(value), "rsv": rsv}})
         if tag in DATA_OUT and count > 0:
             self.pending = (tag, addr, count)
             self.got = bytearray()
@@ -159,32 +170,46 @@ def run_sdp(job):
     proto.identifier = "twin"
     s = SDP(proto)
     s.open()
+    from lib.common import rng
+
+    r = rng("C10", "sdp-args", jid)
     data = bytes((i * 13 + 7) & 0xFF for i in range(length))
     tag = OPS[op]
-    call = {"ev": "call", "op": op, "tag": tag, "len": length if (tag == READ or tag in DATA_OUT) else 0}
+    # arguments from value classes (API order); data operations stay inside the twin's memory
+    if op == "read":
+        args = [r.choice([0x100, 0x104, 0x2ff, r.randrange(0, 0x2000)]), length, r.choice([8, 16, 32])]
+    elif op == "write":
+        args = [r.choice(WORDS), r.choice(WORDS), r.choice([1, 2, 4]), r.choice([8, 16, 32])]
+    elif op in ("write_file", "write_dcd", "write_csf"):
+        args = [r.choice([0x1000, 0x1004, 0x1fff, r.randrange(0x400, 0x2000)])]
+    elif op == "jump":
+        args = [r.choice(WORDS)]
+    else:
+        args = []
+    call = {"ev": "call", "op": op, "tag": tag, "len": length if (tag == READ or tag in DATA_OUT) else 0, "args": [W(x) for x in args], "dl": W(len(data))}
     res = {"ev": "result", "kind": "ret", "ok": False, "reads": 0, "documented": True, "dataExact": False, "dataLen": 0, "devGotExact": False,
            "devBytes": 0, "valueExact": False, "exc": "none"}
     try:
         if op == "read":
-            want = bytes(twin.mem[0x100:0x100 + length])
-            r = s.read(0x100, length, 8)
+            want = bytes(twin.mem[args[0]:args[0] + length])
+            r = s.read(*args)
             res["ok"] = r is not None and s.status_code == 0
             if r is not None:
                 res["dataLen"] = len(r)
                 res["dataExact"] = bytes(r) == want[:len(r)] and len(r) <= len(want)
         elif op == "write":
-            res["ok"] = s.write(0x200, 0x11223344, 4, 32) is True
+            res["ok"] = s.write(*args) is True
         elif op in ("write_file", "write_dcd", "write_csf"):
-            r = getattr(s, op)(0x1000, data)
+            r = getattr(s, op)(args[0], data)
             res["ok"] = r is True
-            res["devGotExact"] = bytes(twin.mem[0x1000:0x1000 + length]) == data and bytes(twin.got) == data
+            res["devGotExact"] = bytes(twin.mem[args[0]:args[0] + length]) == data and bytes(twin.got) == data
             res["devBytes"] = len(twin.got)
         elif op == "read_status":
             r = s.read_status()
             res["ok"] = r is not None
             res["valueExact"] = r == twin.errcode
         elif op == "jump":
-            res["ok"] = s.jump_and_run(0x2000) is True
+            res["ok"] = s.jump_and_run(args[0]) is True
         elif op == "skip_dcd":
             res["ok"] = s.skip_dcd() is True
     except SPSDKError as e:
@@ -205,7 +230,8 @@ def norm(e):
             "count": int(e.get("count", 0)), "n": int(e.get("n", 0)), "fault": e.get("fault", "none"), "okValue": bool(e.get("okValue", True)),
             "ok": bool(e.get("ok", False)), "reads": int(e.get("reads", 0)), "documented": bool(e.get("documented", True)),
             "dataExact": bool(e.get("dataExact", False)), "dataLen": int(e.get("dataLen", 0)), "devGotExact": bool(e.get("devGotExact", False)),
-            "devBytes": int(e.get("devBytes", 0)), "valueExact": bool(e.get("valueExact", False)), "exc": e.get("exc", "none")}
+            "devBytes": int(e.get("devBytes", 0)), "valueExact": bool(e.get("valueExact", False)), "exc": e.get("exc", "none"),
+            "args": e.get("args", []), "dl": e.get("dl", [0, 0]), "pkt": e.get("pkt", NOPKT)}
 
 
 def sdp_jobs(tier, r):
